@@ -87,7 +87,7 @@ def CloseOK (c : CW) : Prop := ∃ (nw : NodeWriter) (pre post : Bytes) (chs : L
   Spec.chunks (c.close).1.io.wBytes.toArray = .ok (c.dFileSize, chs) ∧
   Matches nw c.codec chs c.leafNodes.toList 0 ∧
   (c.close).1.io.wBytes = pre ++ c.stream ++ post ∧ pre.length = nw.dataCOffset ∧
-  (c.close).1.io.wBytes.length = nw.cFileSize
+  (c.close).1.io.wBytes.length = nw.cFileSize ∧ nw.resourcesCOffCLens = c.resourcesCOffCLens
 
 theorem dataInv_leaf_facts (c : CW) (hi : DataInv c) (hne : c.leafNodes.size ≠ 0) :
     c.leafNodes.toList ≠ [] ∧ codecValid c.codec = true ∧
